@@ -238,6 +238,67 @@ JudgeIterTable(e, n) ==
                 /\ r[16] = (IF i < n THEN i ELSE -1)
            /\ {<<e.itab[q][1], e.itab[q][2]>> : q \in 1..Len(e.itab)} = (0..n) \X (0..n), "ITERATOR_ARITHMETIC")
 
+(***************************************************************************)
+(* Comparison (C13, C14).  ops = the compared operands' model contents     *)
+(* (elements of v, then of w); cmp.K = one record of six truth tables per  *)
+(* operand-kind pair; cmp.vv = the twelve vector-level results (v op w,    *)
+(* then w op v, in the order == != < <= > >=).                             *)
+(***************************************************************************)
+IsT(x) == x = 1
+RECURSIVE LexLess(_, _, _, _, _)
+\* std::lexicographical_compare of index sequences A, B under the OBSERVED element relation R
+LexLess(R, A, B, i, n) ==
+  IF i > n THEN Len(A) < Len(B)
+  ELSE IF IsT(R[A[i]][B[i]]) THEN TRUE
+  ELSE IF IsT(R[B[i]][A[i]]) THEN FALSE
+  ELSE LexLess(R, A, B, i + 1, n)
+
+JudgeCmp(e, S1) ==
+  IF e.n # "CmpAll" THEN {}
+  ELSE
+  LET c == e.cmp
+      av == S1.vec[e.v].elems
+      bv == S1.vec[e.a[1]].elems
+      ops == av \o bv
+      n == Len(ops)
+      I == 1..n
+      K == c.K
+      R == K[1].lt
+      EqM == [i \in I |-> [j \in I |-> EqElem(ops[i], ops[j])]]
+      A == [i \in 1..Len(av) |-> i]
+      B == [i \in 1..Len(bv) |-> Len(av) + i]
+  IN
+  Bad(c.n1 = Len(av) /\ c.n2 = Len(bv), "SIZE")
+  \cup (IF c.n1 = Len(av) /\ c.n2 = Len(bv) THEN
+        \* C13: == is equality of logical content, != its negation, for every operand kind
+        Bad(\A q \in 1..Len(K) : \A i, j \in I :
+               IsT(K[q].eq[i][j]) = EqM[i][j] /\ IsT(K[q].ne[i][j]) = ~EqM[i][j], "EQUALITY")
+        \cup Bad(IsT(c.vv[1]) = EqElems(av, bv) /\ IsT(c.vv[7]) = EqElems(av, bv)
+                 /\ IsT(c.vv[2]) = ~EqElems(av, bv) /\ IsT(c.vv[8]) = ~EqElems(av, bv), "VECTOR_EQUALITY")
+        \* C14: the derived operators are consistent with <
+        \cup Bad(\A q \in 1..Len(K) : \A i, j \in I :
+                   /\ K[q].gt[i][j] = K[q].lt[j][i]
+                   /\ IsT(K[q].le[i][j]) = ~IsT(K[q].lt[j][i])
+                   /\ IsT(K[q].ge[i][j]) = ~IsT(K[q].lt[i][j]), "RELATIONAL_INCONSISTENT")
+        \cup Bad(/\ c.vv[5] = c.vv[9] /\ c.vv[11] = c.vv[3]
+                 /\ IsT(c.vv[4]) = ~IsT(c.vv[9]) /\ IsT(c.vv[10]) = ~IsT(c.vv[3])
+                 /\ IsT(c.vv[6]) = ~IsT(c.vv[3]) /\ IsT(c.vv[12]) = ~IsT(c.vv[9]), "VECTOR_RELATIONAL_INCONSISTENT")
+        \* C14: results do not depend on the kind of operand (reference, const reference, element)
+        \cup Bad(\A q \in 1..Len(K) : K[q].lt = R, "COMPARE_DEPENDS_ON_OPERAND_KIND")
+        \* C14: < is a strict order that is compatible with equality
+        \cup Bad(/\ \A i \in I : ~IsT(R[i][i])
+                 /\ \A i, j \in I : ~(IsT(R[i][j]) /\ IsT(R[j][i]))
+                 /\ \A i, j, k \in I : (IsT(R[i][j]) /\ IsT(R[j][k])) => IsT(R[i][k])
+                 /\ \A i, j \in I : IsT(R[i][j]) => ~EqM[i][j], "NOT_A_STRICT_ORDER")
+        \* C14: operands with equal content compare alike (nothing but content matters)
+        \cup Bad(\A i, j \in I : EqM[i][j] => (\A k \in I : R[i][k] = R[j][k] /\ R[k][i] = R[k][j]),
+                 "COMPARE_DEPENDS_ON_NON_CONTENT")
+        \* C14: vector < vector is the lexicographical comparison under the element-level <
+        \cup Bad(/\ IsT(c.vv[3]) = LexLess(R, A, B, 1, IF Len(av) < Len(bv) THEN Len(av) ELSE Len(bv))
+                 /\ IsT(c.vv[9]) = LexLess(R, B, A, 1, IF Len(av) < Len(bv) THEN Len(av) ELSE Len(bv)),
+                 "VECTOR_ORDER")
+        ELSE {})
+
 (* C16: address stability.  keep = number of leading elements that must not move *)
 SameAddrs(E1, E2, keep) ==
   \A i \in 1..keep : /\ i <= Len(E1) /\ i <= Len(E2)
@@ -340,6 +401,7 @@ StepOp(e) ==
           \cup UNION {JudgeVec(R.vec[v], ObsOf(e, v), exa[v]) : v \in Vecs}
           \cup UNION {JudgeEl(R.el[x], EObsOf(e, x)) : x \in Elems}
           \cup (IF e.n = "IterProbe" THEN JudgeIterTable(e, Len(R.vec[e.v].elems)) ELSE {})
+          \cup JudgeCmp(e, R)
           \* proxies never (re)allocate or move anything (C11, C16)
           \cup (IF e.n \in RefOps THEN Bad(NumAllocEvents(e.sub) = 0, "ALLOCATOR_USED") ELSE {})
           \* every live container owns its own block (C09 / C12 independence)
